@@ -312,7 +312,7 @@ pub fn exec_action(w: &Rc<World>, a: &Action) {
             let shared = Rc::new(RefCell::new(underlying));
             let sh = shared.clone();
             let memo = st.weak_memoize_fn(move |k: i64| (sh.borrow_mut())(k));
-            let boxed: Box<dyn FnMut(i64) -> Incr<i64>> = Box::new(memo);
+            let boxed: Box<dyn MemoF> = Box::new(memo);
             w.memos.borrow_mut().push(MemoEntry {
                 f: Some(Rc::new(RefCell::new(boxed))),
                 src: s,
@@ -326,6 +326,8 @@ pub fn exec_action(w: &Rc<World>, a: &Action) {
             if live.is_empty() { return skipped(w, "no memo") }
             let mi = live[*m % live.len()];
             let f = w.memos.borrow()[mi].f.clone().unwrap();
+            // odd keys go through a fresh clone of the memoised function, as user code may
+            let f = if key.rem_euclid(2) == 1 { Rc::new(RefCell::new(f.borrow().clone_box())) } else { f };
             let (n, hid, fresh, prev_alive) = memo_call(w, mi, &f, *key);
             // the driver keeps the returned handle as an ordinary top-level node handle
             let mut nodes = w.nodes.borrow_mut();
@@ -375,8 +377,6 @@ pub fn exec_action(w: &Rc<World>, a: &Action) {
         }
     }
 }
-
-pub type MemoFn = Rc<RefCell<Box<dyn FnMut(i64) -> Incr<i64>>>>;
 
 /// Calls memoised function `mi` through the given clone of it. Returns (node, hid, fresh);
 /// hid is usize::MAX when the returned node is not one the underlying function made for this key.
@@ -481,6 +481,9 @@ pub fn do_observe(w: &Rc<World>, pool: Pool, idx: usize) {
     obs.push(ObsEntry { hid, clones: vec![Some(o)] });
     let oid = obs.len() - 1;
     drop(obs);
+    if matches!(w.nodes.borrow()[hid].rk, RK::Bind { .. }) {
+        w.last_bind_obs.set(Some(oid));
+    }
     act(w, Act::Observe { oid, hid });
 }
 
@@ -654,6 +657,10 @@ pub fn exec_effect(w: &Rc<World>, e: &Effect, arg: Option<MV>) {
             do_state_unsub(w, *sub)
         }
         Effect::DropVar { var } => do_drop_var(w, *var),
+        Effect::WriteThenDropVar { var, op } => {
+            do_write(w, *var, *op, None);
+            do_drop_var(w, *var)
+        }
         Effect::DropNode { node } => {
             let Some(h) = w.pick(Pool::Any, *node) else { return skipped(w, "no node") };
             do_drop_node(w, h)
